@@ -13,6 +13,7 @@ import (
 	"codeberg.org/TauCeti/mangle-go/ast"
 	"codeberg.org/TauCeti/mangle-go/builtin"
 	"codeberg.org/TauCeti/mangle-go/functional"
+	"codeberg.org/TauCeti/mangle-go/symbols"
 	"codeberg.org/TauCeti/mangle-go/unionfind"
 
 	"verifmc/oracle"
@@ -611,6 +612,26 @@ func c07Strings(c *c07Ctx) {
 		c.eval()
 		if got, _ := v.StringValue(); err != nil || got != strconv.FormatInt(n, 10) {
 			c.fail("fn:number:to_string != decimal", n)
+		}
+	}
+	// :match_prefix is about the parts of a name: /a/b and /a/b/c have the prefix /a, /ab and /a itself do not — the
+	// same relation as membership in the name-prefix type /a
+	for _, ns := range append(append([]string{}, names...), "/a/bc", "/abc", "/a.b/c", "/x") {
+		for _, ps := range append(append([]string{}, names...), "/a/bc", "/x", "/a.b") {
+			n, _ := ast.Name(ns)
+			pn, _ := ast.Name(ps)
+			c.eval()
+			var got bool
+			var err error
+			pv, st := rt.Try(func() { got, _, err = builtin.Decide(ast.NewAtom(":match_prefix", n, pn), &unionfind.UnionFind{}) })
+			want := strings.HasPrefix(ns, ps+"/")
+			member := false
+			if h, herr := symbols.NewSetHandle(pn); herr == nil {
+				member = h.HasType(n) && ns != ps
+			}
+			if pv != nil || err != nil || got != want || got != member {
+				c.fail(fmt.Sprintf(":match_prefix(%s, %s) = %v err=%v panic=%v %s; by parts %v; member of the prefix type (and not the name itself): %v", ns, ps, got, err, pv, rt.ShortStack(st), want, member), ns, ps)
+			}
 		}
 	}
 	for _, ns := range names {
